@@ -1,13 +1,17 @@
 #!/bin/sh
 # usage: tools/seedrun.sh <seeded name> <property id>...
-# applies /verif/seeded/<name>/patch.diff to /repo, runs the checks (TIER=quick by default), reverts, and records
-# the outcome in /verif/seeded/<name>/meta.json ("checks_run").
+# Applies /verif/seeded/<name>/patch.diff to a scratch worktree of /repo's HEAD (equivalent to applying it in /repo and
+# undoing it afterwards, but /repo itself is never dirtied and several seeds can be run side by side), runs the checks
+# against it (TIER=quick by default; VERIF_REPO points the checks at the worktree), removes the worktree, and records the
+# outcome in /verif/seeded/<name>/meta.json ("checks_run"). Evidence of these runs goes to a scratch directory.
 name="$1"; shift
-cd /repo || exit 2
-[ -z "$(git status --porcelain)" ] || { echo "/repo not clean"; exit 2; }
-git apply "/verif/seeded/$name/patch.diff" || exit 2
+wt="/tmp/sr-$name"
+git -C /repo worktree remove --force "$wt" >/dev/null 2>&1; git -C /repo branch -D "sr-$name" >/dev/null 2>&1
+git -C /repo worktree add "$wt" -b "sr-$name" HEAD >/dev/null 2>&1 || { echo "cannot create worktree"; exit 2; }
+git -C "$wt" apply "/verif/seeded/$name/patch.diff" || { echo "patch does not apply"; git -C /repo worktree remove --force "$wt"; exit 2; }
+ev=$(mktemp -d /tmp/sr-evid-XXXXXX)
 for id in "$@"; do
-  (cd /verif && ./check "$id" "${TIER:-quick}" > "/tmp/seedrun-$name-$id.log" 2>&1; rc=$?
+  (cd /verif && VERIF_REPO="$wt" VERIF_EVID="$ev" ./check "$id" "${TIER:-quick}" > "/tmp/seedrun-$name-$id.log" 2>&1; rc=$?
    echo "seed=$name check=$id exit=$rc"; grep -E "^VIOLATION|^violation|^INCONCLUSIVE|^KNOWN|^OK" "/tmp/seedrun-$name-$id.log" | cut -c1-300
    python3 - "$name" "$id" "$rc" "/tmp/seedrun-$name-$id.log" "${TIER:-quick}" <<'PY'
 import json, sys, re
@@ -21,6 +25,5 @@ json.dump(m, open(p, "w"), indent=1)
 PY
   )
 done
-git checkout -- . && git status --short
-# the evidence files were rewritten by runs on a modified tree: restore the committed ones
-cd /verif && git checkout -- evidence 2>/dev/null
+rm -rf "$ev"
+git -C /repo worktree remove --force "$wt"; git -C /repo branch -D "sr-$name" >/dev/null 2>&1
